@@ -26,6 +26,8 @@ fn enabled(node: &Node, h: &[u8], mode: &str, faults: bool, max_new: usize, dept
                     hn.map(|hn| hn.parts.iter().any(|p| Some(p.groupid) == *groupid && Some(p.partid) == *partid && p.status == PStat::Pend)).unwrap_or(false)
                 } else { false };
                 if !pend_wait { ev.push(json!({"e": "proc", "c": c.local_id, "fault": "none"})); }
+                // a wait that carried a timeout (the unchanged plugin passes none) may be answered "timed out" while the part is pending
+                if pend_wait && matches!(c.q, Q::WaitPart { timeout: Some(_), .. }) { ev.push(json!({"e": "proc", "c": c.local_id, "fault": "timeout"})); }
                 if faults {
                     let is_pay = matches!(c.q, Q::Pay { .. });
                     ev.push(json!({"e": "proc", "c": c.local_id, "fault": "rej", "err": "transport"}));
@@ -160,7 +162,7 @@ fn run_path(mode: &str, parts: &[String], choices: &[usize], faults: bool, max_n
                     "proc" => {
                         let c = ev["c"].as_u64().unwrap() as usize;
                         let ci = n.calls.iter().position(|x| x.local_id == c).unwrap();
-                        let fault = match ev["fault"].as_str().unwrap() { "rej" => Fault::Rejected(ErrKind::Transport), "abe" => Fault::AppliedButError(ErrKind::Code(210)), _ => Fault::None };
+                        let fault = match ev["fault"].as_str().unwrap() { "rej" => Fault::Rejected(ErrKind::Transport), "abe" => Fault::AppliedButError(ErrKind::Code(210)), "timeout" => Fault::Rejected(ErrKind::Code(200)), _ => Fault::None };
                         let r = n.exec(ci, &fault);
                         let is_pay = matches!(n.calls[ci].q, Q::Pay { .. });
                         match &r { Some(rep) => { n.calls[ci].reply = Some(rep.clone()); n.calls[ci].status = CStat::Replied; } None => { if is_pay { n.calls[ci].status = CStat::Running; } } }
